@@ -1041,15 +1041,18 @@ func (v *Element) Power446(z *Element) *Element {
 // sets r according to Section 5.2 of draft-irtf-cfrg-ristretto255-decaf448-04,
 // and returns r and 0.
 func (r *Element) SqrtRatio(u, v *Element) (rr *Element, wasSquare int) {
-	var uv Element
+	// r may alias u or v, so compute the root into a temporary
+	// and set r after the last use of u and v.
+	var uv, x Element
 	uv.Mul(u, v)
 	uv.Power446(&uv)
-	r.Mul(u, &uv)
+	x.Mul(u, &uv)
 
 	var check Element
-	check.Square(r)
+	check.Square(&x)
 	check.Mul(v, &check)
 	wasSquare = check.Equal(u)
 
+	r.Set(&x)
 	return r, wasSquare
 }
